@@ -355,6 +355,7 @@ void TasmanianSparseGrid::updateGrid(int depth, TypeDepth type, const int *aniso
 }
 void TasmanianSparseGrid::updateGrid(int depth, TypeDepth type, std::vector<int> const &anisotropic_weights, std::vector<int> const &level_limits){
     if (empty()) throw std::runtime_error("ERROR: updateGrid() called, but the grid is empty");
+    if (using_dynamic_construction) throw std::runtime_error("ERROR: updateGrid() called before finishConstruction()");
     int dims = base->getNumDimensions();
     if (depth < 0) throw std::invalid_argument("ERROR: cannot update with a negative depth");
     size_t expected_aw_size = (OneDimensionalMeta::isTypeCurved(type)) ? 2*dims : dims;
